@@ -121,7 +121,7 @@ def kind_of(rec, p):
         if f["p"] == p:
             if p in rec.get("vanish", []):
                 return "bad"
-            return "bad" if f["k"] in ("absent", "dangling") else f["k"]
+            return "bad" if f["k"] in ("absent", "dangling", "eio") else f["k"]
     return "bad"
 
 
@@ -362,7 +362,7 @@ def bad_kinds(rec):
             ks.add("vanish")
         else:
             for f in rec["files"]:
-                if f["p"] == p and f["k"] in ("absent", "dangling"):
+                if f["p"] == p and f["k"] in ("absent", "dangling", "eio"):
                     ks.add(f["k"])
     return sorted(ks)
 
@@ -414,7 +414,9 @@ def c18_scenarios(tier, seed):
 
     base = [{"p": "f%d" % i, "k": "reg", "c": "c%d" % (i % 3)} for i in range(6)] + [
         {"p": "d", "k": "dir", "c": ""}, {"p": "m", "k": "absent", "c": ""}, {"p": "l", "k": "dangling", "c": ""},
-        {"p": "v", "k": "reg", "c": "gone"}, {"p": "m2", "k": "absent", "c": ""}] + SPECIALS
+        {"p": "v", "k": "reg", "c": "gone"}, {"p": "m2", "k": "absent", "c": ""},
+        # a regular file (by stat) that can be opened but not read: the read fails with EIO ("cannot be ... read yields an error")
+        {"p": "io", "k": "eio", "c": ""}] + SPECIALS
     good = ["f%d" % i for i in range(6)]
     # sizes around the worker-count boundary, with duplicates
     for n in sorted({0, 1, 2, ncpu - 1, ncpu, ncpu + 1, 2 * ncpu + 1, 4 * ncpu}):
@@ -430,7 +432,7 @@ def c18_scenarios(tier, seed):
     maxn = 6
     for n in range(1, maxn + 1):
         for pos in range(n):
-            for bad in ("m", "l", "v"):
+            for bad in ("m", "l", "v", "io"):
                 lst = [good[i % 6] for i in range(n)]
                 lst[pos] = bad
                 add(base, lst, vanish=["v"] if bad == "v" else [], trace=(n <= 3))
@@ -446,6 +448,9 @@ def c18_scenarios(tier, seed):
         add(base, ["f0", sp, "f1"])
         add(base, [sp] * (ncpu + 2) + ["f0"])
         add(base, [sp, "m"])
+    add(base, ["io"])
+    add(base, ["io"] * (ncpu + 2) + ["f0"])
+    add(base, ["f0", "io", "d", "f1", "io"])
     add(base, ["d", "m"])
     add(base, ["m", "d", "f0"])
     add(base, ["m", "m", "m", "m"])
